@@ -292,3 +292,56 @@ def c19(ctx, replay):
                     "related queries return differently sized results",
                assumptions=["records of a scenario have distinct timestamps, so result multisets are sets of (timestamp, line)",
                             "stateful distinct is excluded from commutation, as the property says"])
+
+
+def _metric_nontrivial(scns):
+    seen = set()
+    for sid, lines in scns:
+        i = json.loads(lines[0])["in"]
+        if i["recs"] or i.get("flat"):
+            seen.add(json.dumps([i["recs"], i.get("expr"), i.get("flat")], sort_keys=True))
+    return len(seen)
+
+
+@prop("C09")
+def c09(ctx, replay):
+    inv = ["WindowExact", "StampOnGrid", "GridComplete", "NoSampleLost"]
+    q = V.tla_str
+    if ctx.tier == "quick":
+        consts = dict(MaxSamples=3, TMax=4, Ranges={1, 2}, Steps={1, 2, 3}, Starts={0, 1}, Offsets={0, 1}, Ops={q("count_over_time")})
+    else:
+        consts = dict(MaxSamples=4, TMax=5, Ranges={1, 2, 3}, Steps={1, 2, 3, 4}, Starts={0, 1, 2}, Offsets={0, 1, 2},
+                      Ops={q("count_over_time"), q("max_over_time"), q("last_over_time")})
+    mcs = [dict(name="window", module="MC_Window", consts=consts, invariants=inv)]
+    return std(ctx, "C09", mc=mcs, harness_cmd="metric", harness_opts=["mode=window"], trace_module="Trace_Metric",
+               nrand=T(ctx, 2500, 40000), replay=replay, nontrivial=_metric_nontrivial, exhaustive=True, chunk_events=20000,
+               rule="step 1: stepper + clearWindow + fillWindow with its one-sample look-ahead as a state machine; WindowExact (retained "
+                    "samples = {T-o-r <= ts <= T-o}) after every emitted step for every sample multiset (<=3 over 0..4 quick, <=4 over "
+                    "0..5 thorough; ties, samples on both edges), range, step (<, =, > range), start, end, offset; every explored "
+                    "(samples, range, offset, start, end, step) is replayed on Engine.Eval as a range query plus instant queries at both "
+                    "ends; random driver: all 13 range functions (unwrap with by/without grouping, quantile parameters), sub-second "
+                    "timestamps just inside/outside the edges, 2-4 evaluations with different grids per scenario; TLC checks every "
+                    "returned point against the declarative window value (Metric.tla); non-trivial = distinct (records, expression)",
+               assumptions=["observed float64 values are projected to the simplest rational within 1e-9 relative; stddev is compared through its square",
+                            "rate() over an unwrapped label and unparsable unwrap values are left open (outside the listed functions)",
+                            "first/last among equal timestamps follow storage order"])
+
+
+@prop("C10")
+def c10(ctx, replay):
+    mcs = [dict(name="serieskey", module="MC_SeriesKey", consts=dict(MaxLabels=2, ValSet=V.tla_str(T(ctx, "tiny", "quick"))),
+                invariants=["KeyIsLabelSet"])]
+    if ctx.tier != "quick":
+        mcs.append(dict(name="serieskey-3", module="MC_SeriesKey", consts=dict(MaxLabels=3, ValSet=V.tla_str("tiny")), invariants=["KeyIsLabelSet"], export=False))
+        mcs.append(dict(name="serieskey-vals", module="MC_SeriesKey", consts=dict(MaxLabels=1, ValSet=V.tla_str("full")), invariants=["KeyIsLabelSet"]))
+    return std(ctx, "C10", mc=mcs, harness_cmd="metric", harness_opts=["mode=series"], trace_module="Trace_Metric",
+               nrand=T(ctx, 600, 8000), replay=replay, nontrivial=_metric_nontrivial, exhaustive=True, chunk_events=20000,
+               rule="step 1: the grouping key (pairs sorted by name, length-prefixed, visible labels of the by/without clause) fed to an "
+                    "injective hash equals the visible label set, for every pair of label sets of <=2 (quick) / <=3 (thorough) labels "
+                    "over names {a, ab, b} and values that are prefixes/concatenations of one another, every materialisation order and "
+                    "5 grouping clauses; every pair is replayed as three records (L1, L2, L1) evaluated 6x per evaluation (Go re-randomises "
+                    "map iteration per range) as instant and range query; random driver: 2-11 records over 2-5 label sets of <=5 labels, "
+                    "shuffled attribute order, 8 repetitions; TLC checks every point against the declarative series (no label set "
+                    "twice, values conserved); non-trivial = distinct (records, expression)",
+               assumptions=["64-bit hash collisions are outside the model (hash abstracted as injective on its input bytes)",
+                            "map iteration orders are sampled by repetition, not enumerated"])
